@@ -290,7 +290,7 @@ def split_cases(out):
     return res, order
 
 
-def run_c(cbin, cases, max_restarts=40):
+def run_c(cbin, cases, max_restarts=100000):
     """Run the C driver; an abort (sanitizer) ends the case it occurred in with a CRASH line and
     the remaining cases are run in a fresh process."""
     res = {}
@@ -779,6 +779,16 @@ def run(ctx):
         "char is signed; isspace = C locale; memcpy/memmove/memchr/memcmp/strlen = list operations",
         "extraction (ExtrOcamlBasic) and the OCaml/C drivers harness/C06/{mdrv.ml,drv.c}",
         "ASan/UBSan as observers of out-of-block accesses in the C run"]
+    # a disagreement that is exactly a failure listed as open in KNOWN_FINDINGS.txt (same key, the
+    # first differing line is the failing operation) is reported as KNOWN-FINDING and does not
+    # count as a broken tie
+    known_open = {k for (p, k), v in ctx.known.items() if p == PID and v.get("state") == "open"}
+    if known_open:
+        failing = {c.cid: f for c, f in tot["fail"]}
+        explained = [x for x in tot["mismatch"]
+                     if x[0].cid in failing and failing[x[0].cid][1] in known_open and failing[x[0].cid][0] == x[1]]
+        tot["mismatch"] = [x for x in tot["mismatch"] if x not in explained]
+        ctx.cov["mismatches_explained_by_known_findings"] = len(explained)
     if tot["mismatch"]:
         c, d, cl, ml = tot["mismatch"][0]
         ctx.tie_broken("correspondence a_str model vs C: %d case(s) differ; first: case %s line %d: C `%s` / model `%s`"
